@@ -4,6 +4,24 @@ import json, os
 here = os.path.dirname(os.path.abspath(__file__))
 baseline = "cd /repo && cargo test --workspace --no-fail-fast --offline"
 CHECKS = {
+ "C05": ("fault_enumeration", "§3 C05", "fault catalogue (24 basis/delta faults + raw delta-file corruption) applied to sampled valid pairs; both engines run against a simulated basis stream that records every offset served and an output sink that records every byte; `copia patch` on simulated files",
+         "Success is judged on the bytes actually written to the sink against the checksum of the delta as given; panics are caught and count as the abort they are in the shipped profile; the basis seam shows any read outside the supplied basis. Found and repaired: abort on a block size read from the file.",
+         "faults enumerated per sampled pair; pairs sampled"),
+ "C20": ("fault_enumeration", "§3 C20", "codec streams under truncation at chosen offsets, per-byte header corruption, payload corruption, random bytes, read errors and benign chunking/Interrupted; `copia delta|patch` on hostile signature/delta files in the simulator with allocator monitor and step budget",
+         "Decoding must yield a value or an error for every fault position, never a panic or an allocation beyond the payload bound (counting allocator), and invalid magic/version/type/length must always be an error; the CLI must exit with a report, not crash, over-allocate or hang. Found and repaired: 4 GiB allocation driven by Copy.len, abort on hostile block size.",
+         "the pure round-trip identity is only the control batch; address-space limit stand-in 2 GiB"),
+ "C04": ("exploration", "§3 C04", "real `sync -r` in all three directions on simulated hosts: real tokio tasks whose simulated operations complete in the scheduler's seeded order, ssh + bash + coreutils stand-in on the remote host, hostile names; post-conditions against an independent reference plan and the per-call trace",
+         "The completion order of the parallel transfers and of each transfer's sub-steps (and of the remote shell children) is the scheduler's seeded choice; the trace gives per-call evidence that quick-check matches and out-of-plan files were never touched and that the source saw no mutating call. Found and repaired: newline-delimited remote lists, `mv` into an occupying directory.",
+         "remote side is bash + GNU tools as the shipped commands assume; ssh reliable ordered stream; stub fidelity spot-checked against real bash"),
+ "C09": ("fault_enumeration", "§3 C09", "kill of the copia process before every file-system-mutating or pipe-write call of a reference run (all k up to a cap, else seeded k), orphaned children scheduled to completion, then re-run",
+         "Every sampled scenario is executed once per kill point; after each kill all orphaned remote commands run on, every live destination path must hold old or complete new bytes, and the re-run must reproduce the uninterrupted destination. Found and repaired: push published a truncated file when the sender died.",
+         "kill lands between system calls; orphan semantics as real ssh (EOF on stdin)"),
+ "C14": ("exploration", "§3 C14", "the same simulated `sync -r` command run twice; second run must plan nothing and issue zero mutating calls on either host (trace), trees identical to the nanosecond; first run's reported plan equals the stated quick-check rule",
+         "Sub-second, zero and far-future mtimes and hostile names travel through the remote quoting and `touch -d @` / `find -printf %T@` twice; the no-op claim is decided on the call trace, not on output text alone.",
+         "stub models of touch -d @N and find %T@ (GNU formats)"),
+ "C15": ("exploration", "§3 C15", "real run and --dry-run from the same simulated world snapshot, names and exclude patterns over {a,b,*,?,.,/}; zero mutating calls in dry runs (trace), printed actions == reference plan == real run's effects; bisync --dry-run compared with a real bisync from the same snapshot",
+         "Both runs start from one cloned world, so 'the actions printed are exactly the ones a real run performs' is a direct differential; excludes are judged by an independent matcher. Found and repaired: a pattern '*' consumed as a literal by a '*' in the name.",
+         "as C04 and C02"),
  "C03": ("exploration", "§3 C03", "N real `copia serve` processes + client actors under a seeded baton scheduler (uniform / sticky / PCT / sequential) over simulated FS, flock and pipes; Wing-Gong-Lowe linearizability search of the recorded history against a sequential CAS map, final tree included",
          "Every file-system, flock and pipe step of every server is a scheduling point chosen from the run seed, so interleavings such as 'B slips between A's stage and A's rename' are reached thousands of times per second and replay exactly. The oracle is an exact linearizability search (histories <= 24 ops) with the final hub tree as part of the model state. It found four genuine concurrency defects in serve.rs (shared staging file, non-atomic Get, non-atomic List), all repaired.",
          "shim call = atomic step; advisory flock; atomic rename; clients use the real wire codec"),
